@@ -156,7 +156,7 @@ pub fn run(args: &Args) {
         }
         let mut users = vec![user.clone()];
         users.extend(extra_users.iter().cloned());
-        let dict = match load_dictionary(&dir, system.clone(), users, &cfg) {
+        let dict = match load_dictionary_caught(&dir, system.clone(), users, &cfg) {
             Ok(d) => d,
             Err(e) => {
                 let id = sink.case_rust_only(json!({"kind": "c03-load", "config": cname}), false);
@@ -302,7 +302,7 @@ fn reuse_sessions(sink: &mut Sink, rng: &mut Rng, args: &Args, dir: &std::path::
         }
         let mut users = vec![user.to_vec()];
         users.extend(extra.iter().cloned());
-        let dict = match load_dictionary(dir, system.to_vec(), users, &cfg) {
+        let dict = match load_dictionary_caught(dir, system.to_vec(), users, &cfg) {
             Ok(d) => d,
             Err(_) => continue, // reported by the main loop
         };
@@ -541,6 +541,15 @@ fn lattice_term(dict: &JapaneseDictionary, tok: &mut StatefulTokenizer<&Japanese
     ))
 }
 
+
+/// putting a dictionary together analyses the user dictionary entries (cost estimation): a panic there is a finding
+/// like any other, not a reason for the harness to die
+fn load_dictionary_caught(dir: &std::path::Path, system: Vec<u8>, users: Vec<Vec<u8>>, cfg: &Value) -> Result<JapaneseDictionary, String> {
+    match catch(|| load_dictionary(dir, system, users, cfg)) {
+        Ok(r) => r,
+        Err(p) => Err(format!("panicked while loading: {}", p)),
+    }
+}
 
 // ------------------------------------------------------------------ panicking-index model of lattice.rs (Model/LatticeP.v)
 // One Lattice object through several rounds of reset / insert* / connect_eos / fill_top_path / node(id), with well-formed
